@@ -162,6 +162,9 @@ def run(ctx: Ctx) -> None:
             if ",".join(map(str, impl)) != g:
                 ctx.mismatch("block quote marker arithmetic: live rule and model differ", {"bsCount": bs, "sCount": sc, "after_marker": after, "impl": impl, "model": g})
                 break
+        # tie of the modelled block sub-parsers (leaf rules, block quotes, lists)
+        from . import miniblock
+        miniblock.tie_all(ctx, drv, quick)
     finally:
         drv.close()
     ctx.partial += [
